@@ -448,4 +448,307 @@ theorem updL_spec (enc : HookPair → Nat) (hp : HookPair) (ks : List Node) (h :
           simpa using this
 end
 
+/-! ### any successful `_set` seen through the hook view -/
+
+section HookViewOk
+variable (enc : HookPair → Nat)
+
+theorem setHere_hv_ok (a : SetArgs) (n n' : Node) (h : setHere a n = .ok n') :
+    setHere (hvA enc a) (hvN enc n) = .ok (hvN enc n') := by
+  obtain ⟨ad, ah, an, ao⟩ := a
+  match n with
+  | .mk k d p f hk lits tok =>
+    simp only [setHere, hvN, hvA] at h ⊢
+    split at h
+    · cases h
+    · split at h
+      · cases h
+      · rename_i h1 h2
+        simp only [Except.ok.injEq] at h
+        subst h
+        cases ah <;> cases hk <;> cases ao <;> simp_all [hvN]
+
+mutual
+theorem chainLit_hv' (a : SetArgs) (key : Str) (r : List Sym) :
+    chainLit (hvA enc a) key r = hvN enc (chainLit a key r) := by
+  match r with
+  | [] => simp [chainLit, hvN, hvA, hvL, hvT]
+  | .lit c :: r => simp only [chainLit]; exact chainLit_hv' a (key ++ [c]) r
+  | .tok g :: r => simp only [chainLit, hvN, hvL, hvT, chainTok_hv' a g r, Option.map_none]
+theorem chainTok_hv' (a : SetArgs) (g : Option Fid) (r : List Sym) :
+    chainTok (hvA enc a) g r = hvN enc (chainTok a g r) := by
+  match r with
+  | [] => simp [chainTok, hvN, hvA, hvL, hvT]
+  | .lit c :: r => simp only [chainTok, hvN, hvL, hvT, chainLit_hv' a [c] r, Option.map_none]
+  | .tok g' :: r => simp only [chainTok, hvN, hvL, hvT, chainTok_hv' a g' r, Option.map_none]
+end
+
+theorem splitIns_hv_ok (a : SetArgs) (n n' : Node) (route : List Sym) (h : splitIns a n route = .ok n') :
+    splitIns (hvA enc a) (hvN enc n) route = .ok (hvN enc n') := by
+  unfold splitIns at h ⊢
+  simp only [hvN_key, ← hvN_withKey]
+  dsimp only at h
+  cases hd : List.drop (commonPrefix n.key (litRun route)).length route with
+  | nil =>
+    rw [hd] at h
+    have := setHere_hv_ok enc a _ n' h
+    simpa [hvN, hvL, hvT] using this
+  | cons sy r =>
+    rw [hd] at h
+    cases sy with
+    | lit c =>
+      simp only [Except.ok.injEq] at h
+      subst h
+      simp [hvN, hvL, hvT, chainLit_hv' enc a]
+    | tok g =>
+      simp only [Except.ok.injEq] at h
+      subst h
+      simp [hvN, hvL, hvT, chainTok_hv' enc a]
+
+mutual
+theorem insN_hv_ok (a : SetArgs) (n : Node) (p : List Sym) (n' : Node) (h : insN a n p = .ok n') :
+    insN (hvA enc a) (hvN enc n) p = .ok (hvN enc n') := by
+  match n, p with
+  | n, [] => simp only [insN] at h ⊢; exact setHere_hv_ok enc a n n' h
+  | .mk k d pk f hk lits tok, .lit c :: r =>
+    simp only [insN, hvN] at h ⊢
+    cases hL : insL a lits c r with
+    | error e => rw [hL] at h; simp [Except.map] at h
+    | ok o =>
+      rw [hL] at h
+      simp only [Except.map, Except.ok.injEq] at h
+      subst h
+      rw [insL_hv_ok a lits c r o hL]
+      cases o with
+      | none => simp [Except.map, hvN, hvL, chainLit_hv' enc a]
+      | some l => simp [Except.map, hvN]
+  | .mk k d pk f hk lits tok, .tok g :: r =>
+    simp only [insN, hvN] at h ⊢
+    cases hT : insT a tok g r with
+    | error e => rw [hT] at h; simp [Except.map] at h
+    | ok t =>
+      rw [hT] at h
+      simp only [Except.map, Except.ok.injEq] at h
+      subst h
+      rw [insT_hv_ok a tok g r t hT]
+      simp [Except.map, hvN, hvT]
+theorem insT_hv_ok (a : SetArgs) (t : Option Node) (g : Option Fid) (r : List Sym) (t' : Node)
+    (h : insT a t g r = .ok t') : insT (hvA enc a) (hvT enc t) g r = .ok (hvN enc t') := by
+  match t with
+  | none =>
+    simp only [insT, Except.ok.injEq] at h
+    subst h
+    simp [insT, hvT, chainTok_hv' enc a]
+  | some t =>
+    simp only [insT, hvT, hvN_filter] at h ⊢
+    split
+    · rename_i hf; simp [hf] at h
+    · rename_i hf
+      simp only [hf, Bool.false_eq_true, if_false] at h
+      exact insN_hv_ok a t r t' h
+theorem insL_hv_ok (a : SetArgs) (ks : List Node) (c : Char) (r : List Sym) (o : Option (List Node))
+    (h : insL a ks c r = .ok o) : insL (hvA enc a) (hvL enc ks) c r = .ok (o.map (hvL enc)) := by
+  match ks with
+  | [] =>
+    simp only [insL, Except.ok.injEq] at h
+    subst h
+    simp [insL, hvL]
+  | k :: ks =>
+    simp only [insL, hvL, hvN_key] at h ⊢
+    split
+    · rename_i hc
+      simp only [hc, if_true] at h
+      cases hs : stripKey k.key (.lit c :: r) with
+      | none =>
+        rw [hs] at h
+        simp only [Option.elim] at h ⊢
+        cases hX : splitIns a k (.lit c :: r) with
+        | error e => rw [hX] at h; simp [Except.map] at h
+        | ok k' =>
+          rw [hX] at h
+          simp only [Except.map, Except.ok.injEq] at h
+          subst h
+          rw [splitIns_hv_ok enc a k k' _ hX]
+          simp [Except.map, hvL]
+      | some rest =>
+        rw [hs] at h
+        simp only [Option.elim] at h ⊢
+        cases hX : insN a k rest with
+        | error e => rw [hX] at h; simp [Except.map] at h
+        | ok k' =>
+          rw [hX] at h
+          simp only [Except.map, Except.ok.injEq] at h
+          subst h
+          rw [insN_hv_ok a k rest k' hX]
+          simp [Except.map, hvL]
+    · rename_i hc
+      simp only [hc, Bool.false_eq_true, if_false] at h
+      cases hX : insL a ks c r with
+      | error e => rw [hX] at h; simp [Except.map] at h
+      | ok o0 =>
+        rw [hX] at h
+        simp only [Except.map, Except.ok.injEq] at h
+        subst h
+        rw [insL_hv_ok a ks c r o0 hX]
+        cases o0 <;> simp [Except.map, hvL]
+end
+
+end HookViewOk
+
+/-- `RadiDict.add` (data only) leaves the hook pairs of the tree as they are -/
+theorem treeAdd_hooks (enc : HookPair → Nat) (t t' : Node) (pat : List Sym) (d : Nat) (names : List Str)
+    (ow : Bool) (h : WFN t) (hi : treeAdd t pat d names ow = .ok t') :
+    ∀ e, e ∈ hdenN enc t' ↔ e ∈ hdenN enc t := by
+  unfold treeAdd at hi
+  have hi' := insN_hv_ok enc _ t pat t' hi
+  obtain ⟨_, _, _, hd'⟩ := insN_spec _ (hvN enc t) ((WFN_hvN enc t).mpr h) pat _ hi'
+  intro e
+  have := hd' e
+  rw [denN_hvN, denN_hvN] at this
+  simpa [newRule, hvA] using this
+
+/-! ### the filter-blind walk finds the hook pair the tree holds at a pattern -/
+
+/-- `RadiRouter._match(route_pattern=…, get_hooks=True)` -/
+def hookAtShape (n : Node) (p : List Sym) : Option HookPair :=
+  match findN false n p with
+  | .ok m => m.hooks
+  | .error _ => none
+
+mutual
+theorem findN_hooks (enc : HookPair → Nat) (n : Node) (h : WFN n) (p : List Sym) :
+    (∀ e ∈ hdenN enc n, shape e.pat = shape p → ∃ hp, hookAtShape n p = some hp ∧ e.data = enc hp) ∧
+    (∀ hp, hookAtShape n p = some hp → ∃ e ∈ hdenN enc n, shape e.pat = shape p ∧ e.data = enc hp ∧ e.keys = []) := by
+  match n, p with
+  | .mk k d pk f hk lits tok, [] =>
+    unfold WFN at h
+    simp only [hookAtShape, findN, Node.hooks, hdenN, gN]
+    constructor
+    · intro e he hs
+      rcases List.mem_append.mp he with he | he
+      · rcases List.mem_append.mp he with he | he
+        · cases hk with
+          | none => simp [ownH] at he
+          | some hp => simp only [ownH, List.mem_singleton] at he; subst he; exact ⟨hp, rfl, rfl⟩
+        · obtain ⟨_, _, c, q, _, hq⟩ := mem_gL_shape (ownH_ok enc) h.1 he; rw [hq] at hs; simp at hs
+      · obtain ⟨g, q, hq⟩ := mem_gT_shape he; rw [hq] at hs; simp at hs
+    · intro hp hh
+      subst hh
+      exact ⟨⟨[], enc hp, []⟩, by simp [ownH], rfl, rfl, rfl⟩
+  | .mk k d pk f hk lits tok, .lit c :: r =>
+    unfold WFN at h
+    obtain ⟨h1, h2⟩ := findL_hooks enc lits h.1 c r
+    simp only [hookAtShape, findN, hdenN, gN] at h1 h2 ⊢
+    constructor
+    · intro e he hs
+      rcases List.mem_append.mp he with he | he
+      · rcases List.mem_append.mp he with he | he
+        · rw [(ownH_ok enc).pat_nil d pk hk e he] at hs; simp at hs
+        · exact h1 e he hs
+      · obtain ⟨g, q, hq⟩ := mem_gT_shape he; rw [hq] at hs; simp [shapeSym] at hs
+    · intro hp hh
+      obtain ⟨e, he, hx⟩ := h2 hp hh
+      exact ⟨e, by simp [he], hx⟩
+  | .mk k d pk f hk lits tok, .tok g :: r =>
+    unfold WFN at h
+    obtain ⟨h1, h2⟩ := findT_hooks enc tok h.2 g r
+    simp only [hookAtShape, findN, hdenN, gN] at h1 h2 ⊢
+    constructor
+    · intro e he hs
+      rcases List.mem_append.mp he with he | he
+      · rcases List.mem_append.mp he with he | he
+        · rw [(ownH_ok enc).pat_nil d pk hk e he] at hs; simp at hs
+        · obtain ⟨_, _, c, q, _, hq⟩ := mem_gL_shape (ownH_ok enc) h.1 he
+          rw [hq] at hs; simp [shapeSym] at hs
+      · exact h1 e he hs
+    · intro hp hh
+      obtain ⟨e, he, hx⟩ := h2 hp hh
+      exact ⟨e, by simp [he], hx⟩
+theorem findT_hooks (enc : HookPair → Nat) (t : Option Node) (h : WFT t) (g : Option Fid) (r : List Sym) :
+    (∀ e ∈ gT (ownH enc) t, shape e.pat = shape (.tok g :: r) →
+      ∃ hp, (match findT false t g r with | .ok m => m.hooks | .error _ => none) = some hp ∧ e.data = enc hp) ∧
+    (∀ hp, (match findT false t g r with | .ok m => m.hooks | .error _ => none) = some hp →
+      ∃ e ∈ gT (ownH enc) t, shape e.pat = shape (.tok g :: r) ∧ e.data = enc hp ∧ e.keys = []) := by
+  match t with
+  | none => simp [gT, findT]
+  | some t0 =>
+    unfold WFT at h
+    obtain ⟨h1, h2⟩ := findN_hooks enc t0 h r
+    simp only [hookAtShape, hdenN] at h1 h2
+    simp only [gT, findT, Bool.false_and, Bool.false_eq_true, if_false]
+    constructor
+    · intro e he hs
+      obtain ⟨y, hy, rfl⟩ := List.mem_map.mp he
+      exact h1 y hy (by simpa [shapeSym] using hs)
+    · intro hp hh
+      obtain ⟨e, he, hs, hx⟩ := h2 hp hh
+      exact ⟨e.under [Sym.tok t0.filter], List.mem_map.mpr ⟨e, he, rfl⟩, by simp [shapeSym, hs], hx⟩
+theorem findL_hooks (enc : HookPair → Nat) (ks : List Node) (h : WFL ks) (c : Char) (r : List Sym) :
+    (∀ e ∈ gL (ownH enc) ks, shape e.pat = shape (.lit c :: r) →
+      ∃ hp, (match findL false ks c r with | .ok m => m.hooks | .error _ => none) = some hp ∧ e.data = enc hp) ∧
+    (∀ hp, (match findL false ks c r with | .ok m => m.hooks | .error _ => none) = some hp →
+      ∃ e ∈ gL (ownH enc) ks, shape e.pat = shape (.lit c :: r) ∧ e.data = enc hp ∧ e.keys = []) := by
+  match ks with
+  | [] => simp [gL, findL]
+  | k :: ks =>
+    unfold WFL at h
+    obtain ⟨hne, hk, hks, hdist⟩ := h
+    simp only [gL, findL]
+    by_cases hcc : k.key.head? = some c
+    · have hc' : (k.key.head? == some c) = true := by simp [hcc]
+      simp only [hc', if_true]
+      have hsib : ∀ e ∈ gL (ownH enc) ks, shape e.pat ≠ shape (.lit c :: r) := by
+        intro e he
+        obtain ⟨k2, hk2, c2, q, hc2, hq⟩ := mem_gL_shape (ownH_ok enc) hks he
+        rw [hq]
+        simp only [shape_cons, shapeSym, ne_eq, List.cons.injEq, Sym.lit.injEq, not_and]
+        intro hEq
+        exact absurd (by rw [hc2, hcc, hEq]) (hdist k2 hk2)
+      cases hs : stripKey k.key (.lit c :: r) with
+      | none =>
+        simp only [Option.elim]
+        constructor
+        · intro e he hsh
+          rcases List.mem_append.mp he with he | he
+          · obtain ⟨y, _, rfl⟩ := List.mem_map.mp he
+            simp only [Rule.under_pat, shape_append, shape_litSyms] at hsh
+            exact absurd hsh (stripKey_none_ne hs _)
+          · exact absurd hsh (hsib e he)
+        · intro hp hh; cases hh
+      | some rest =>
+        simp only [Option.elim]
+        obtain ⟨h1, h2⟩ := findN_hooks enc k hk rest
+        simp only [hookAtShape, hdenN] at h1 h2
+        constructor
+        · intro e he hsh
+          rcases List.mem_append.mp he with he | he
+          · obtain ⟨y, hy, rfl⟩ := List.mem_map.mp he
+            refine h1 y hy ?_
+            rw [stripKey_some hs] at hsh
+            simpa using hsh
+          · exact absurd hsh (hsib e he)
+        · intro hp hh
+          obtain ⟨e, he, hsx, hx⟩ := h2 hp hh
+          refine ⟨e.under (litSyms k.key), by simp only [List.mem_append, List.mem_map]; exact Or.inl ⟨e, he, rfl⟩, ?_, hx⟩
+          rw [stripKey_some hs]; simp [hsx]
+    · have hc' : (k.key.head? == some c) = false := by simpa using hcc
+      simp only [hc', Bool.false_eq_true, if_false]
+      obtain ⟨h1, h2⟩ := findL_hooks enc ks hks c r
+      constructor
+      · intro e he hsh
+        rcases List.mem_append.mp he with he | he
+        · obtain ⟨y, _, rfl⟩ := List.mem_map.mp he
+          cases hkk : k.key with
+          | nil => exact absurd hkk hne
+          | cons c2 cs =>
+            rw [hkk] at hsh
+            simp only [Rule.under_pat, litSyms, List.map_cons, List.cons_append, shape_cons, shapeSym,
+              List.cons.injEq, Sym.lit.injEq] at hsh
+            exact absurd (by rw [hkk, hsh.1]; rfl) hcc
+        · exact h1 e he hsh
+      · intro hp hh
+        obtain ⟨e, he, hx⟩ := h2 hp hh
+        exact ⟨e, List.mem_append_right _ he, hx⟩
+end
+
 end Ombott.Router
